@@ -17,6 +17,7 @@ from hypothesis import strategies as st
 
 from vlib import urlref
 from vlib.core import Campaign, hyp_campaign
+from vlib import fuzz as F
 from vlib.urlgrammar import TOK, FLAT, UNRESERVED, _esc_classes
 
 PROPERTY = "C14"
@@ -121,8 +122,9 @@ def _check_unquote(name, s, out):
             out.append((rel + "control", "safely_unquote_%s(%r)=%r introduces control character %r" % (name, s, u, c)))
             break
     for d in DELIMS[name]:
-        if co.get(d, 0) != ci.get(d, 0):
-            out.append((rel + "delim", "safely_unquote_%s(%r)=%r changes the number of raw %r" % (name, s, u, d)))
+        # unescaping must not *create* a delimiter; writing a raw one as its escape is a respelling that keeps the bytes (checked above)
+        if co.get(d, 0) > ci.get(d, 0):
+            out.append((rel + "delim", "safely_unquote_%s(%r)=%r creates a raw %r" % (name, s, u, d)))
             break
     if po > pi:
         out.append((rel + "delim", "safely_unquote_%s(%r)=%r creates a dangling '%%'" % (name, s, u)))
@@ -207,9 +209,14 @@ def _strategy(tier):
     return st.lists(tok, min_size=1, max_size=40).map(lambda ts: {"kind": "quote", "s": "".join(ts)})
 
 
+FUZZ_TARGETS = {"quote": (lambda data: {"kind": "quote", "s": F.text_from_bytes(data)}, lambda c: "%" in c["s"], None)}
+
+
 def campaigns(tier, seed):
     red_len, full_len = (3, 2) if tier == "quick" else (4, 3)
     return [
+        Campaign("quote-coverage-guided", F.fuzz_campaign("quote", runs=(3000, 200000), max_len=48, dictionary=F.URL_DICT + ["%E2%82", "%F0%9F%98%80", "%C2%85", "%1F", "%80", "%%", "%2", "%ED%A0%80"]), "atheris",
+                 bounds="libFuzzer over UTF-8 strings <= 48 bytes through every quoting / unquoting function"),
         Campaign("exhaustive-reduced", _enum, "enumeration", exhaustive=True,
                  bounds="all sequences of <=%d tokens over a %d-token alphabet (one or two per class)" % (red_len, len(REDUCED)),
                  params={"length": red_len, "full": False}),
